@@ -456,6 +456,9 @@ func (c *checker) caseName(j *job) string {
 	if len(j.Upstream) == 2 {
 		s += fmt.Sprintf(" source of shard %d fails after %d rows", j.Upstream[0], j.Upstream[1])
 	}
+	if j.Reuse {
+		s += " [reuse history]"
+	}
 	return s
 }
 
@@ -1198,7 +1201,7 @@ func (c *checker) reportCrashes() {
 		}
 		what := "process crashed while reading a cached shard: " + c.caseName(cr.j)
 		if cr.j.Reuse {
-			what += " [run; scan; Result.Discard; Run(consumer, result)]"
+			what += " = run; scan; Result.Discard; Run(consumer, result)"
 		}
 		what += fmt.Sprintf(": the process died in 3 of 3 attempts, each in a fresh process (%s): %s", strings.Join(cr.how, "; "), crashGist(cr.stderr))
 		if n > 1 {
